@@ -110,6 +110,8 @@ def run(ctx: Ctx):
     with lean_lock():
         ctx.extract(x_db.GEN_NAME, x_db.emit)
         ctx.extract(x_tr.GEN_NAME, x_tr.emit)
+        for fname, *_ in x_tr.FUNCS:   # one obligation per translated method: an untranslatable one does not hide the others
+            ctx.oblige(f"translate:{fname}", "extractor", fname not in x_tr.FAILED, x_tr.FAILED.get(fname, ""))
         ctx.prove(MODULES, exes=[EXE], clean=False, leanchecker=ctx.thorough)
     ctx.cov["rule"] = ("case = (number of clients 1..4, session limit, passwords, durations, ransomware presence, op sequence over "
                        "connect / handle+raw+native query / disconnect / forged+foreign ids / execute / uninstall+install / "
